@@ -94,7 +94,9 @@ pub fn run(seed: u64, count: usize, outdir: &str) -> std::io::Result<i32> {
         let mut bad: Vec<String> = vec![];
         let kind = ci % 4;
         let jit = r.chance(0.5);
-        let backend = if jit { "jit" } else { "vm" };
+        // a quarter of the interpreter cases render with 3 registers: simplified tapes can then be LONGER than their parent
+        let vm3 = !jit && r.chance(0.25);
+        let backend = if jit { "jit" } else if vm3 { "vm3" } else { "vm" };
         let mut line = String::new();
         let mut il = String::new();
         macro_rules! compare_pools { ($name:expr, $runner:expr, $tasksite:ident) => {{
@@ -158,7 +160,7 @@ pub fn run(seed: u64, count: usize, outdir: &str) -> std::io::Result<i32> {
             0 => {
                 let g = if r.chance(0.6) { gen_csg(&mut r, false, false) } else { gen_expr(&mut r) };
                 let c = Cfg2 { w: r.range(1, 120) as u32, h: r.range(1, 120) as u32, tiles: gen_tiles(&mut r), mat: gen_mat3(&mut r), z: 0.0, pp: r.chance(0.3), threads: 0 };
-                let (ts, ps, tp, total, co) = if jit { compare_pools!("render2d", |t, k| r2::<JitFunction>(&g, &c, t, k), tile) } else { compare_pools!("render2d", |t, k| r2::<VmFunction>(&g, &c, t, k), tile) };
+                let (ts, ps, tp, total, co) = if jit { compare_pools!("render2d", |t, k| r2::<JitFunction>(&g, &c, t, k), tile) } else if vm3 { compare_pools!("render2d", |t, k| r2::<fidget_core::vm::GenericVmFunction<3>>(&g, &c, t, k), tile) } else { compare_pools!("render2d", |t, k| r2::<VmFunction>(&g, &c, t, k), tile) };
                 line = format!("c09 raster {} {} {} {}", c.w, c.h, c.tiles.len(), c.tiles.iter().map(|t| t.to_string()).collect::<Vec<_>>().join(" "));
                 il = format!("tasks {ts}");
                 if ps != ts { bad.push(format!("kind=poll-count backend={backend} render2d: {ps} cancel polls for {ts} tile tasks")); }
@@ -168,7 +170,7 @@ pub fn run(seed: u64, count: usize, outdir: &str) -> std::io::Result<i32> {
             1 => {
                 let g = gen_csg(&mut r, true, false);
                 let c = Cfg3 { w: r.range(1, 40) as u32, h: r.range(1, 40) as u32, d: r.range(1, 40) as u32, tiles: { let mut t = gen_tiles(&mut r); while t[0] > 64 || t.last().unwrap().pow(3) > 4096 { t = gen_tiles(&mut r); } t }, mat: gen_mat4(&mut r), threads: 0 };
-                let (ts, ps, tp, _total, _co) = if jit { compare_pools!("render3d", |t, k| r3::<JitFunction>(&g, &c, t, k), tile) } else { compare_pools!("render3d", |t, k| r3::<VmFunction>(&g, &c, t, k), tile) };
+                let (ts, ps, tp, _total, _co) = if jit { compare_pools!("render3d", |t, k| r3::<JitFunction>(&g, &c, t, k), tile) } else if vm3 { compare_pools!("render3d", |t, k| r3::<fidget_core::vm::GenericVmFunction<3>>(&g, &c, t, k), tile) } else { compare_pools!("render3d", |t, k| r3::<VmFunction>(&g, &c, t, k), tile) };
                 line = format!("c09 raster {} {} {} {}", c.w, c.h, c.tiles.len(), c.tiles.iter().map(|t| t.to_string()).collect::<Vec<_>>().join(" "));
                 il = format!("tasks {ts}");
                 if ps != ts { bad.push(format!("kind=poll-count backend={backend} render3d: {ps} cancel polls for {ts} tile tasks")); }
